@@ -120,6 +120,13 @@ Expected(e, on) ==
     [] e.a = "CopyValue"     -> PostCopyValue(cells, e.p, e.q)
     [] e.a = "CopyCell"      -> PostCopyCell(cells, e.p, e.q)
     [] e.a = "SaveLoad"      -> [p \in Pos |-> ReloadedDev(cells[p], on)]
+(* The text of a number: ANY decimal literal that parses back to the very same double is accepted (how many digits,
+   exponent or not is the library's business; the model's NumChars is one such spelling).  The other levels must
+   return the same text as CellValue::get_value. *)
+FinNum(c) == c.v.k = "num" /\ c.v.n.cls = "fin"
+NumTextOk(o) == o.hasnum /\ Str(o.valc) = o.val /\ IsDecimal(o.valc) /\ o.reread /\ o.rawstr = o.val
+XVal(c, ov) == IF FinNum(c) THEN ov.val ELSE Proj(c).val
+
 (* the values the calls return *)
 ExpRet(e, want)  == IF e.a = "GetLazy" THEN XVal(want[e.p], e.obs[e.p].v) ELSE ""
 ExpRetB(e)       == IF e.a = "Remove" THEN cells[e.p].here ELSE FALSE
@@ -135,13 +142,6 @@ NumEq(o, d) == /\ o.cls = d.cls
                /\ d.cls = "inf" => o.neg = d.neg
 RawText(v) == IF v.k \in {"str", "bool", "err", "lazy"} THEN Str(v.t) ELSE ""
 Finite(c)  == c.v.k # "num" \/ c.v.n.cls = "fin"
-
-(* The text of a number: ANY decimal literal that parses back to the very same double is accepted (how many digits,
-   exponent or not is the library's business; the model's NumChars is one such spelling).  The other levels must
-   return the same text as CellValue::get_value. *)
-FinNum(c) == c.v.k = "num" /\ c.v.n.cls = "fin"
-NumTextOk(o) == o.hasnum /\ Str(o.valc) = o.val /\ IsDecimal(o.valc) /\ o.reread /\ o.rawstr = o.val
-XVal(c, ov) == IF FinNum(c) THEN ov.val ELSE Proj(c).val
 
 (* CellValue level (Worksheet::get_cell_value: the shared default value for a cell that is not there) *)
 ChecksV(o, c) ==
